@@ -14,11 +14,11 @@ from . import canboat
 from .canboat import Definition, Field
 
 # classes whose raw value lies inside the database range (or is the not-available code)
-IN_CLASSES = ("zero_in", "range_min", "range_max", "just_in_lo", "just_in_hi", "na", "uniform_in", "one_in")
+IN_CLASSES = ("zero_in", "range_min", "range_max", "just_in_lo", "just_in_hi", "na", "uniform_in", "one_in", "value_zero", "value_one", "source_constant")
 OUT_CLASSES = ("just_out_lo", "just_out_hi", "all_ones", "na_minus_1", "sign_lo", "sign_hi", "sign_hi1", "uniform", "zero")
 BOUNDARY = ("range_min", "range_max", "just_in_lo", "just_in_hi", "na", "just_out_lo", "just_out_hi", "all_ones",
             "na_minus_1", "sign_lo", "sign_hi", "sign_hi1", "table_miss", "f_special", "str_multibyte", "str_utf16",
-            "str_empty", "str_max", "str_bytes", "match_foreign", "match_bitflip")
+            "str_empty", "str_max", "str_bytes", "match_foreign", "match_bitflip", "source_constant", "value_zero", "value_one")
 
 
 def _unsigned(f: Field, s: int) -> int:
@@ -48,6 +48,33 @@ def raw_bounds(f: Field):
     return lo, hi
 
 
+_SRC_CONSTS = None
+
+
+def source_constants():
+    """Numeric literals harvested from the hand-written sources of the library under test (not the generated pgns.py/consts.py):
+    a dictionary of 'interesting' numbers in the fuzzing sense - thresholds, special values, masks."""
+    global _SRC_CONSTS
+    if _SRC_CONSTS is None:
+        import ast
+        import os
+        from .common import REPO
+        vals = set()
+        for fn in ("utils.py", "decoder.py", "encoder.py", "message.py", "ioclient.py"):
+            try:
+                tree = ast.parse(open(os.path.join(REPO, "nmea2000", fn)).read())
+            except Exception:
+                continue
+            for node in ast.walk(tree):
+                if isinstance(node, ast.Constant) and isinstance(node.value, (int, float)) and not isinstance(node.value, bool):
+                    v = node.value
+                    if v == v and abs(v) < 1e30:
+                        vals.add(v)
+                        vals.add(-v)
+        _SRC_CONSTS = sorted(vals)
+    return _SRC_CONSTS
+
+
 def number_classes(f: Field):
     """dict class -> unsigned raw (int) or ('range', lo, hi) for drawn classes."""
     n = f.bits
@@ -75,6 +102,12 @@ def number_classes(f: Field):
             out["zero_in"] = _unsigned(f, 0)
         if lo <= 1 <= hi:
             out["one_in"] = _unsigned(f, 1)
+        if f.offset is not None:
+            # the raw that denotes the VALUE zero of an excess-K field (an interior raw value)
+            r0 = (Fraction(0) - f.offset) / f.res
+            if r0.denominator == 1 and lo <= r0 <= hi:
+                out["value_zero"] = _unsigned(f, int(r0))
+                out["value_one"] = _unsigned(f, min(int(r0) + 1, hi))
         if f.signed and f.offset is None:
             wlo, whi = -(1 << (n - 1)), (1 << (n - 1)) - 1
         else:
@@ -88,6 +121,17 @@ def number_classes(f: Field):
     else:
         out["uniform_in"] = ("range", 0, full - 1 if na == full else full)
         out["zero_in"] = 0
+    # numbers that occur literally in the library's sources, read both as a raw and as a value of this field
+    cands = set()
+    off = f.offset if f.offset is not None else Fraction(0)
+    for c in source_constants():
+        for r in (Fraction(c), (Fraction(c) - off) / f.res):
+            for rr in (r.__floor__(), r.__ceil__()):
+                if b and b[0] <= rr <= b[1]:
+                    cands.add(_unsigned(f, rr))
+    cands -= {v for v in out.values() if isinstance(v, int)}
+    if cands:
+        out["source_constant"] = ("choice", sorted(cands)[:200])
     return out
 
 
